@@ -285,20 +285,34 @@ c = c13.cfg_of(t); shapes = c13.shapes_of(t); D = t['D']
 opt = dsh.make_opt(c)
 rng = np.random.RandomState(0)
 params = {f'p{i}': jnp.asarray(rng.randn(*sh), jnp.float32) for i, sh in enumerate(shapes)}
+class RealCrash(Exception):
+  pass
+
+
 def run(ndev):
   devs = jax.devices()[:ndev]
-  rep = lambda x: jax.device_put_replicated(x, devs)
+  rep = lambda x: jax.tree_util.tree_map(lambda a: jnp.stack([jnp.asarray(a)] * len(devs)), x)
   init = jax.pmap(opt.init, axis_name='batch', devices=devs)
   upd = jax.pmap(opt.update, axis_name='batch', devices=devs)
-  st = init(rep(params))
+  try:
+    st = init(rep(params))
+  except Exception as ex:
+    raise RealCrash(f'init under pmap over {ndev} devices raises {type(ex).__name__}: {str(ex)[:200]}')
   r = np.random.RandomState(1)
   outs = []
   for step in range(4):
     g = {k: jnp.asarray(r.randn(*v.shape), jnp.float32) for k, v in params.items()}
-    u, st = upd(rep(g), st, rep(params))
+    try:
+      u, st = upd(rep(g), st, rep(params))
+    except Exception as ex:
+      raise RealCrash(f'update under pmap over {ndev} devices raises {type(ex).__name__}: {str(ex)[:200]}')
     outs.append(jax.tree_util.tree_map(np.asarray, (u, st)))
   return outs
-a, b = run(1), run(D)
+try:
+  a, b = run(1), run(D)
+except RealCrash as ex:
+  print(json.dumps(str(ex)))
+  sys.exit(0)
 msg = None
 for step, (x, y) in enumerate(zip(a, b)):
   lx, ly = jax.tree_util.tree_leaves(x), jax.tree_util.tree_leaves(y)
@@ -325,8 +339,7 @@ def concrete(t):
   try:
     return json.loads(out.stdout.strip().splitlines()[-1])
   except Exception:
-    lines = [l for l in out.stderr.splitlines() if 'Error' in l or 'error' in l]
-    return ('real pmap run failed: ' + (lines[-1] if lines else out.stderr[-300:])) if out.returncode else None
+    return None    # the replay harness itself failed: inconclusive, never a violation
 
 
 def confirm(t):
